@@ -664,7 +664,7 @@ type vfVersion struct {
 func VfVersions() {
 	nops := 2 + zzvf.Tier()
 	zzvf.Bound("operations_max", nops)
-	vfVersionsBody(1+zzvf.Choice("operations", nops), 5, nil)
+	vfVersionsBody(1+zzvf.Choice("operations", nops), 6, nil)
 }
 
 // VfVersionsSuspend: C09 – the same oracle over programs that switch the bucket between Enabled and Suspended: one
@@ -802,6 +802,14 @@ func vfVersionsBody(n, kinds int, status []bool) {
 				zzvf.Fail("delete-without-id-returns-the-marker's-version-id")
 				return
 			}
+		case 5: // delete the oldest version by id: only that entry goes, the key reads as before
+			if len(hist) < 2 {
+				continue
+			}
+			first := hist[0]
+			_, err := p.DeleteObject(vfCtx(), &s3.DeleteObjectInput{Bucket: vfStr("bkt"), Key: &key, VersionId: &first.id})
+			zzvf.Assert(err == nil, "delete-of-an-older-version-by-id-succeeds")
+			hist = hist[1:]
 		case 2: // delete the newest version by id
 			if len(hist) == 0 {
 				continue
